@@ -229,9 +229,46 @@ func orderStage(r *engine.Run) {
 		},
 	})
 	var dels, commits, stages, clears []ssa.Instruction
+	group := opGroup(r, f)
+	spec := engine.FlowSpec{
+		Param: func(p *ssa.Parameter, i int) engine.Label { return 0 },
+		HeapLoad: func(ld *ssa.UnOp, base engine.Label) (engine.Label, bool) {
+			if fld := engine.FieldOf(ld.X); fld != nil {
+				switch fld.Name() {
+				case "deleted":
+					return labDeleted, true
+				case "tempDeleted":
+					return labTemp, true
+				case "db":
+					return 0, true
+				}
+				return labOther, true
+			}
+			return base, true
+		},
+	}
 	engine.Instrs(f, func(in ssa.Instruction) {
 		switch x := in.(type) {
 		case *ssa.Call:
+			// the delete batch moved into a helper of DeleteNodes: the call stands for the
+			// deletes and the batch commit it contains (its keys are judged in the helper)
+			if h := x.Call.StaticCallee(); h != nil && h != f && inGroup(group, h) {
+				flh := engine.RunFlow(h, spec)
+				engine.Instrs(h, func(i2 ssa.Instruction) {
+					c2, ok := i2.(*ssa.Call)
+					if !ok || !c2.Call.IsInvoke() || !isNamed(c2.Call.Value.Type(), pkgStore, "Batcher") {
+						return
+					}
+					switch c2.Call.Method.Name() {
+					case "Delete":
+						dels = append(dels, in)
+						r.CallSites++
+						r.Check(flh.Of(c2.Call.Args[0]) == labDeleted, rule, fn(h)+"|deleted keys", r.P.Pos(i2.Pos()), "keys come from the `deleted` set only", "DeleteNodes deletes keys that do not come (only) from the `deleted` set: nodes staged in this pass are removed without the grace pass")
+					case "Commit":
+						commits = append(commits, in)
+					}
+				})
+			}
 			if x.Call.IsInvoke() && isNamed(x.Call.Value.Type(), pkgStore, "Batcher") {
 				switch x.Call.Method.Name() {
 				case "Delete":
@@ -695,6 +732,14 @@ func derivesFromBytes(v, target ssa.Value) bool {
 // chanCell: a channel variable captured by closures lives in a cell; loads of
 // the same cell name the same channel.
 func chanCell(v ssa.Value) ssa.Value {
+	// chan T handed over as chan<- T is the same channel
+	for {
+		if ct, ok := v.(*ssa.ChangeType); ok {
+			v = ct.X
+			continue
+		}
+		break
+	}
 	if u, ok := v.(*ssa.UnOp); ok && u.Op == token.MUL {
 		if al, ok := u.X.(*ssa.Alloc); ok {
 			return al
